@@ -120,6 +120,7 @@ static void run_cmd(const sim::Cmd &c, sim::Out &out)
   if (c.num("q_disj_polarity", 1) == 0)
     b.q_disj_polarity = false;
   b.q_rr_numeric = c.num("q_rr_numeric", prop == "C02" ? 1 : 0) != 0;
+  b.q_empty_object_domain = c.num("q_empty_object_domain", 1) != 0;
   for (auto &op : ops)
     b.apply(op);
   b.finalize();
